@@ -15,7 +15,8 @@ Judge_parse(c) ==
           << Cl("C11.accept", "ok"),
              Tri("C11.names", NameSet(c.res.names) = DOMAIN P.st.names),
              \* the returned schema carries full names and resolved references: re-parsing it (no namespace context left) gives the same tree
-             IF NullNsInside(P.t, <<>>) THEN Cl("C11.tree", "unspec") ELSE Tri("C11.tree", R.ok /\ R.t = P.t) >>
+             \* (a null-namespace type nested in a namespaced one keeps "namespace": "" in the result - repaired defect 6173736)
+             Tri("C11.tree", R.ok /\ R.t = P.t) >>
   ELSE IF P.kind = "other" THEN << Cl("C11.reject", "unspec") >>
   ELSE << Tri("C11.reject." \o P.kind, IsParseError(c.res)) >>
 
